@@ -123,4 +123,43 @@ SeqOrfs(s, known, orfStart, secs) ==
 AllOrfs(tx, V) ==
   UNION {SeqOrfs(Apply(tx.seq, H), tx.coding, tx.orfStart, ShiftedSecs(tx, H)) :
            H \in Haplotypes(UsableVars(tx, V), StartIdx(tx)) \cup {{}}}
+
+(***************************************************************************)
+(* W>F reassignment: every non-empty subset of the tryptophans of a        *)
+(* peptide read as phenylalanine.                                          *)
+(***************************************************************************)
+WPos(q) == {k \in 1..Len(q) : q[k] = "W"}
+W2FImage(q, S) == [k \in 1..Len(q) |-> IF k \in S THEN "F" ELSE q[k]]
+W2FImages(q) == {W2FImage(q, S) : S \in (SUBSET WPos(q)) \ {{}}}
+W2FAll(PP, cfg) == {x \in UNION {W2FImages(q) : q \in PP} : Keep(x, cfg)}
+
+(***************************************************************************)
+(* C08: callNovelORF.  Every ATG of the three frames of a selected         *)
+(* transcript opens an ORF that runs to the next stop or to the end of the *)
+(* transcript.                                                             *)
+(***************************************************************************)
+NovelOrfTx(seq, cfg, canonical) ==
+  LET base == SeqPeptides(seq, FALSE, 0, {}, cfg, FALSE) \ canonical
+  IN IF cfg.w2f THEN base \cup (W2FAll(base, cfg) \ canonical) ELSE base
+
+(***************************************************************************)
+(* C09: callAltTranslation on a coding transcript: peptides of the         *)
+(* annotated ORF that only exist because translation stops at an annotated *)
+(* Sec codon (SECT) and / or tryptophans are read as F (W2F).              *)
+(***************************************************************************)
+SecResidues(tx) == {((p - tx.orfStart) \div 3) + 1 : p \in {q \in tx.sec : q >= tx.orfStart /\ (q - tx.orfStart) % 3 = 0}}
+
+AltTransTx(tx, cfg, canonical) ==
+  LET o == OrfOf(tx.seq, tx.orfStart, tx.sec)
+      plain == OrfPeptides(o.pep, cfg, TRUE, o.open, tx.endNF)
+      (* translation stopping at Sec residue k: the fragments that end there      *)
+      sectAt(k) == LET pre == SubSeq(o.pep, 1, k - 1)
+                       pairs == {ab \in FragPairs(o.pep, cfg) : ab[1] < k - 1 /\ ab[2] >= k}
+                       cut == {SubSeq(o.pep, ab[1] + 1, k - 1) : ab \in pairs}
+                       mless == IF Len(o.pep) > 0 /\ o.pep[1] = "M"
+                                THEN {SubSeq(o.pep, 2, k - 1) : ab \in {x \in pairs : x[1] = 0}} ELSE {}
+                   IN {q \in cut \cup mless : Keep(q, cfg)}
+      sect == IF cfg.sect THEN UNION {sectAt(k) : k \in {j \in SecResidues(tx) : j <= Len(o.pep) /\ o.pep[j] = "U"}} ELSE {}
+      w2f == IF cfg.w2f THEN W2FAll(plain \cup sect, cfg) ELSE {}
+  IN (sect \cup w2f) \ canonical
 =============================================================================
